@@ -212,6 +212,8 @@ type gen struct {
 	vsnSeen  int
 	small    bool // few ids: more contention
 	forced   []JOp // ops to issue before anything else (orderly clean-up after a restore)
+	raft     bool  // Raft-shaped stream: Store-level writes whose new version is a strictly increasing caller-chosen index
+	rv       int   // the last index handed out in that mode
 }
 
 func (g *gen) id() JID {
@@ -298,6 +300,13 @@ func (g *gen) write() JOp {
 	default:
 		res.Ver = g.anyVersion()
 	}
+	if g.raft {
+		// raft.Backend.Apply: the log index becomes the version, whatever the outcome
+		g.rv += 1 + g.r.Intn(2)
+		presented := res.Ver
+		res.Ver = strconv.Itoa(g.rv)
+		return JOp{T: "writes", Res: &res, Vsn: presented}
+	}
 	return JOp{T: "write", Res: &res}
 }
 
@@ -320,6 +329,14 @@ func (g *gen) delete() JOp {
 	}
 	if g.mal && g.r.Intn(4) == 0 {
 		op.Uid = ""
+	}
+	if g.raft {
+		g.rv++ // a delete is a log entry too
+	}
+	if cur, have := g.cur[id.key()]; have && (cur.Uid != op.Uid || cur.Ver != op.Vsn) && g.r.Intn(2) == 0 {
+		// look at the row right after a delete that must not have hit it
+		rid := id
+		g.forced = append(g.forced, JOp{T: "read", ID: &rid, GV: cur.GV})
 	}
 	return op
 }
@@ -420,10 +437,14 @@ func (g *gen) next(x *schedExec) JOp {
 // observe keeps the generator's belief about the stored rows up to date, from outputs only.
 func (g *gen) observe(op JOp, out JOut) {
 	switch op.T {
-	case "write":
-		if v, err := strconv.Atoi(op.Res.Ver); err == nil && v > g.vsnSeen {
-			_ = v
+	case "writes":
+		g.vsnSeen = g.rv
+		if out.T == "ok" {
+			k := op.Res.ID.key()
+			g.cur[k] = *op.Res
+			g.lastSeen[k] = append(g.lastSeen[k], *op.Res)
 		}
+	case "write":
 		g.vsnSeen++ // Backend.vsn is bumped by every WriteCAS call
 		if out.T == "res" {
 			k := out.Res.ID.key()
@@ -452,7 +473,7 @@ func (g *gen) observe(op JOp, out JOut) {
 
 func runSched(seed int64, mal bool) *JCase {
 	r := rand.New(rand.NewSource(seed))
-	g := &gen{r: r, mal: mal, cur: map[string]JRes{}, lastSeen: map[string][]JRes{}, small: r.Intn(3) > 0}
+	g := &gen{r: r, mal: mal, cur: map[string]JRes{}, lastSeen: map[string][]JRes{}, small: r.Intn(3) > 0, raft: !mal && r.Intn(4) == 0}
 	x := newSchedExec()
 	n := 15 + r.Intn(50)
 	if r.Intn(10) == 0 {
@@ -461,6 +482,9 @@ func runSched(seed int64, mal bool) *JCase {
 	c := &JCase{Mode: "sched", Seed: seed}
 	if mal {
 		c.Mode = "sched-malformed"
+	}
+	if g.raft {
+		c.Mode = "sched-raftshape"
 	}
 	for i := 0; i < n; i++ {
 		op := g.next(x)
